@@ -444,13 +444,17 @@ impl MintBuilder {
     pub(crate) fn get_script_ref_inputs_with_size(
         &self,
     ) -> impl Iterator<Item = (&TransactionInput, usize)> {
-        self.mints.iter().filter_map(|(_, script_mint)| {
-            if let ScriptMint::Plutus(plutus_mints) = script_mint {
-                if let PlutusScriptSourceEnum::RefInput(script_ref, _) = &plutus_mints.script {
-                    return Some((&script_ref.input_ref, script_ref.script_size));
+        self.mints.iter().filter_map(|(_, script_mint)| match script_mint {
+            ScriptMint::Plutus(plutus_mints) => match &plutus_mints.script {
+                PlutusScriptSourceEnum::RefInput(script_ref, _) => {
+                    Some((&script_ref.input_ref, script_ref.script_size))
                 }
-            }
-            None
+                _ => None,
+            },
+            ScriptMint::Native(native_mints) => match &native_mints.script {
+                NativeScriptSourceEnum::RefInput(input, _, _, size) => Some((input, *size)),
+                _ => None,
+            },
         })
     }
 }
